@@ -47,7 +47,7 @@ All twenty properties are claimed in `MANIFEST.json`; `not_applicable` is empty.
 | C16 | Frames, PoseOps | `select_exact`, `step_exact`, `dropout_kept`, `dropout_length`, `dropout_count`, `dropout_keeps_one`, `tf_dropout_kept`, `tf_dropout_keeps_one` | the random draws themselves |
 | C17 | Represent | `…_missing_zero` (4), `…_not_nan` (3), `distance_formula`, `angle_formula`, `innerAngle_formula`, `pointLine_formula` (Heron), `limbPoints_spec`, `limbPoints_in_range`, `mem_trianglePoints`, `output_size_is_row_count`, `pointsRep_row`, `groupEmbeds_entry` | IEEE overflow / `acos(1+ε)`; `atan`, `acos` |
 | C18 | Concurrent | `step_inv`, `reads_isolated(_gen)`, `finishes_after_two_steps` | preemption inside a source line |
-| C19 | OpenPose | `openpose_cell`, `openpose_absent`, `openpose_present`, `loaded_meta`, `frame_id_conforming` | JSON parsing |
+| C19 | OpenPose | `locate_offset`, `openpose_cell`, `openpose_absent`, `openpose_present`, `openpose_short_component`, `loaded_meta`, `frame_id_conforming` | JSON parsing |
 | C20 | Collate | `collate_masked`, `collate_ints`, `collate_strings`, `collate_masked_field`, `padData_*` | torch `stack` / `cat` |
 
 Helper lemmas live in `Proofs/` (codec algebra `Codec*.lean`, stream simulation `Stream*.lean`, windows `Window*.lean`, nested-array toolkit
@@ -92,6 +92,7 @@ program theorem to the two normalisers (`normalize_ni`, `normalizeDistribution_n
 | F14 | C15 | 78e2a45 | `bbox` raised on every 3-D pose (mask split at `[-1]`) |
 | F15 | C14 | 27e4acd | `interpolate` placed an observation at new step 0 when no resampled instant lies at or after it (found by the C14 check itself) |
 | F10 | C17 | 4c72ab8 | torch `PointsRepresentation` used `.view` on a transposed tensor: raised for batch or length > 1 |
+| F16 | C19 | 830b739 | `load_openpose` advanced the keypoint index by the number of triples it found, so an empty (undetected) hand / face list shifted every later component (found after a sub-agent's remark, reproduced by the strengthened C19 check) |
 
 Each is recorded as `kind: fixed` in `known_findings.json` (suppresses nothing: the check passes on the repaired tree and reports the violation
 again if it returns — verified for F8 by reverting the commit in the working tree: C09 reports it).
@@ -115,13 +116,14 @@ Each sub-agent received only the text of one property and its own scratch git wo
 for a small change that breaks the property, compiles, keeps the 128 passing tests passing and needs something specific to manifest, with a
 demonstration. Each change was confirmed here (demo passes on the clean tree, fails with the patch, no passing test lost — `tools/seed_verify.py`)
 and is kept as `seeded/<id>/{patch.diff, demo.py, notes.md, meta.json}`; none was ever committed to `/repo` (applied with `git apply`, checks run,
-`git checkout -- .`). 63 faults: two per property in a first round, and a second round (ids `-c`, `-d`) for C01, C03, C04, C05, C06, C07, C08, C10, C11, C15, C16, C20 in which the sub-agents were
-additionally told which code sites had been used before (one second-round fault, a re-discovery of C01-d that also tripped a flaky test, was discarded). **No request was refused** by the permission system or a safety layer at any step.
+`git checkout -- .`). 79 faults: two per property in a first round, and two per property in a second round (ids `-c`, `-d`; C05 one) in which the sub-agents were
+additionally told which code sites had been used before (one second-round fault, C05-d, a re-discovery of C01-d that also tripped a flaky test, was discarded; two stored C19 patches were rebased by hand, mechanism unchanged, when the F16 repair touched the same loop). **No request was refused** by the permission system or a safety layer at any step.
 
 SEEDTABLE
 
-Sixteen faults were missed on the first run by the check of their own property (bold above): in fifteen cases the generator did not reach the specific
-trigger, in one (C05-c) the faulty reader crashed the node process and the check called that an infrastructure error — the oracles themselves were never at fault. The checks were strengthened (last column) and all 63 are now detected by the check of their own property;
+Twenty-two faults were missed on the first run by the check of their own property (bold above): in twenty cases the generator did not reach the specific
+trigger, in one (C05-c) the faulty reader crashed the node process and the check called that an infrastructure error, and in one (C18-c) the check stopped observing when the
+concurrent reads had returned, so a cache left inconsistent was never read again. The checks were strengthened (last column) and all 79 are now detected by the check of their own property;
 `tools/reseed_all.py` re-applies every stored fault and re-runs its check (regression of the mutation corpus).
 
 ### 0.6 What the tooling could not do
